@@ -2923,6 +2923,11 @@ class AbsInt:
                 if isinstance(x, AList) and isinstance(y, (bytes, tuple, list, str, bytearray)):
                     if x.minlen() > len(y) or (not x.has_var() and len(x.items) != len(y)):
                         return isinstance(op, ast.NotEq)
+            # two objects of program classes that define no __eq__ anywhere: object.__eq__ is identity
+            if isinstance(a, AObj) and isinstance(b, AObj) and a.cls is not None and b.cls is not None \
+                    and self.p.lookup_method(a.cls, '__eq__')[1] is None and self.p.lookup_method(b.cls, '__eq__')[1] is None \
+                    and not any(isinstance(k, str) for c_ in (a.cls, b.cls) for k in self.p.mro(c_) for k in k.bases):
+                return (a is b) if isinstance(op, ast.Eq) else (a is not b)
             # values of different abstract kinds
             if isinstance(a, (AList, ADict, AObj)) or isinstance(b, (AList, ADict, AObj)):
                 return None
